@@ -1,3 +1,4 @@
+import QuiverModel.Lemmas.Types.RecSound
 import QuiverModel.Lemmas.Types.SubTrans
 import QuiverModel.Core.Types.Basic
 import QuiverModel.Core.Types.Inh
@@ -248,6 +249,39 @@ def CompatTransStatement : Prop :=
     isCompatible T fuel a b = some true → isCompatible T fuel b c = some true →
     ∃ fuel', isCompatible T fuel' a c = some true
 
+/-- **Soundness of assignability on RECURSIVE first-order types.** In an ordered table (no forward
+references: what `register_*` builds), for types in which only int / bin / ref / resource / tuple /
+partial / union / `Cycle` nodes are reachable (`RFO`) and a right-hand type that is closed and
+contractive (`Closed`): if `is_compatible(a, b)` answers `true` — with any fuel — every value of `a` is a
+value of `b`. (Nothing is asked of the left type beyond `RFO`: a dangling back-reference on the left
+denotes the empty type.) This is `CompatSoundStatement` for every type without function / process
+components; it holds of the code since fd75268, 4bee69d, ecfc5db and dc4f190 (each of the four old rules
+has a kernel-checked counter-example above: R1, R1b, R6, and R7 for function types).
+
+Proof (`Lemmas/Types/RecDer*.lean`, `RecInv.lean`, `RecSound.lean`): (1) a successful run returns a set
+of assumptions that is SUPPORTED — each is justified by one union step whose premises are derivable from
+the set again (`run_supported`); (2) a supported set is sound, by induction on the fuel with which the
+value inhabits the left type; the steps that only unfold the right type are handled by an inner
+induction on the number of guard flags that are set, then the id (`phi_step`). Since ecfc5db the two
+stacks of the checker are the stacks of `inhB` (sorted on an ordered table: `pushStack` = cons); since
+dc4f190 an assumption is about the two types below the stacks it was made under, which is what makes
+"supported" a property of the set alone. -/
+theorem compat_sound_rec_fo (T : Table) (hT : Ordered T) (a b fuel : Nat) (ha : RFO T a) (hb : RFO T b)
+    (hcb : Closed T b) (h : isCompatible T fuel a b = some true) :
+    ∀ v, inh T [] a v → inh T [] b v := by
+  unfold isCompatible at h
+  cases hc : checkRel T .all fuel [] {} a b with
+  | none => simp [hc] at h
+  | some p =>
+    obtain ⟨r, asm'⟩ := p
+    rw [hc] at h
+    simp only [Option.map_some, Option.some.injEq] at h
+    subst h
+    obtain ⟨hsupp, hder⟩ := run_supported T fuel a b ha hb asm' hc
+    rintro v ⟨n, hn⟩
+    exact phi_all hT (A := (· ∈ asm')) hsupp n a b {} [] [] trivial
+      ⟨rfl, trivial, hcb, trivial⟩ hder v hn
+
 /-- **On first-order types the verdict does not depend on the state of the checker**: whatever
 assumptions (sound ones) and stacks a check starts from, `true` means the stateless syntactic relation
 `Sub` (`Lemmas/Types/Sub.lean`: the arms of the checker without assumption set, stacks and equal-id
@@ -464,6 +498,17 @@ theorem R1b_value : inhB tR1b 16 [] 7 vR1b = true ∧ inhB tR1b 16 [] 9 vR1b = f
 theorem R1b_closed : Ordered tR1b ∧ Closed tR1b 7 ∧ Closed tR1b 9 :=
   ⟨by decide, ⟨8, by decide⟩, ⟨8, by decide⟩⟩
 theorem R1b_repaired : isCompatible tR1b 32 7 9 = some false := by decide
+
+/-- the hypotheses of `compat_sound_rec_fo` are satisfiable by a non-trivial recursive pair: in R1b's
+table `U1 = [y: ^, bin] | B(x: ^) | [x: ^] | int` is assignable to `int | U1` (6 ≤ 7) -/
+example : Ordered tR1b ∧ RFO tR1b 6 ∧ RFO tR1b 7 ∧ Closed tR1b 7 ∧ isCompatible tR1b 32 6 7 = some true :=
+  ⟨by decide, ⟨8, by decide⟩, ⟨8, by decide⟩, ⟨8, by decide⟩, by decide⟩
+
+/-- …and the theorem then gives containment of every value, e.g. `[y: 0, 0x]` -/
+example : inh tR1b [] 7 (.tup none (.cons (some 4) (.int 0) (.cons none (.bin []) .nil))) :=
+  compat_sound_rec_fo tR1b (by decide) 6 7 32 ⟨8, by decide⟩ ⟨8, by decide⟩ ⟨8, by decide⟩ (by decide) _
+    ⟨8, by decide⟩
+
 
 /-- R5 (fixed by 4bee69d): 0 int, 1 bin, 2 `int | bin`, 3 `^1`, 4 `^2`, 5 resource, 6 `^2 | res`,
 7 `@(int / ^1)`, 8 never, 9 `#((^2 | res) -> 7)`, 10 `res | ^2`, 11 `A = #((res | ^) -> 7 ! never)`,
